@@ -942,6 +942,12 @@ func (vm *VM) execBuildArray() error {
 	}
 
 	elemCount := int(operand)
+	// The operand comes straight from the bytecode: it must not size an
+	// allocation before it is known that the stack holds that many values
+	// (a 5-byte instruction could otherwise request gigabytes).
+	if elemCount > len(vm.stack) {
+		return fmt.Errorf("stack underflow")
+	}
 	arr := make([]Value, elemCount)
 
 	// Pop in reverse order
@@ -1252,6 +1258,9 @@ func (vm *VM) execCall() error {
 	}
 
 	argCount := int(operand)
+	if argCount > len(vm.stack) {
+		return fmt.Errorf("stack underflow")
+	}
 
 	// Pop arguments
 	args := make([]Value, argCount)
